@@ -94,8 +94,35 @@ def check_chen(cfg, queries, size, levy, rnd, entropy=99, n_triples=8, wrapper="
     with warnings.catch_warnings():
         warnings.simplefilter("ignore")
         try:
-            for ta, tb in tq:
-                ask(ta, tb)
+            told = []
+            for (ta, tb), (qa, qb) in zip(tq, queries):
+                ans = ask(ta, tb)
+                # only queries at RESOLVED times (end points on the tolerance grid) are in the scope of the property:
+                # for an off-grid query W is the increment between the rounded end points, while U is converted
+                # with the unrounded length (observed; outside "tolerance (at resolved times)")
+                if cfg.round(qa) == qa and cfg.round(qb) == qb:
+                    told.append((ta, tb, ans))
+            # ONE path over the whole history: what was answered DURING the history is consistent with what is
+            # answered after it (the same query again; the query cut at an interior point)
+            seen = set()
+            for ta, tb, (W0, U0, A0) in told:
+                if not ta < tb or (ta, tb) in seen or len(seen) >= 4:
+                    continue
+                seen.add((ta, tb))
+                Wn, Un, An = ask(ta, tb)
+                if not _close(Wn, W0, ulps, _scale(Wn, W0) * max(1.0, span)):
+                    fails.append(("history_repeat", dict(s=ta, t=tb, err=float((Wn - W0).abs().max()))))
+                inner = [p for p in pts if ta < p < tb]
+                if inner:
+                    u = inner[len(inner) // 2]
+                    W1, U1, _ = ask(ta, u)
+                    W2, U2, _ = ask(u, tb)
+                    if not _close(W0, W1 + W2, ulps, _scale(W1, W2, W0) * max(1.0, span)):
+                        fails.append(("history_additivity", dict(s=ta, u=u, t=tb, err=float((W0 - W1 - W2).abs().max()))))
+                    if U0 is not None:
+                        rhs = U1 + U2 + (tb - u) * W1
+                        if not _close(U0, rhs, ulps, _scale(U1, U2, U0, (tb - u) * W1) * max(1.0, span)):
+                            fails.append(("history_chen_U", dict(s=ta, u=u, t=tb, err=float((U0 - rhs).abs().max()))))
             for s, u, t in triples(pts, n_triples, rnd):
                 W1, U1, A1 = ask(s, u)
                 W2, U2, A2 = ask(u, t)
